@@ -56,6 +56,18 @@ def header_or_nil(msg: Message, field: str) -> bytes:
 
 ############################################################################
 #
+def quote_string(value: str) -> str:
+    """
+    Return `value` as an IMAP quoted string: `\\` and `"` are escaped and a
+    quoted string can not contain CR or LF (left over from a folded header).
+    """
+    value = value.replace("\\", "\\\\").replace('"', '\\"')
+    value = value.replace("\r\n", "").replace("\r", "").replace("\n", " ")
+    return f'"{value}"'
+
+
+############################################################################
+#
 def encode_header(hdr: str) -> bytes:
     """
     Attempts to encode a header as bytes. It will first attempt to simply
@@ -76,6 +88,11 @@ def encode_header(hdr: str) -> bytes:
             result = Header(hdr).encode(maxlinelen=0).encode("latin-1")
         except UnicodeEncodeError:
             result = hdr.encode("latin-1", errors="replace")
+
+    # It is sent as a quoted string.
+    #
+    result = result.replace(b"\\", b"\\\\").replace(b'"', b'\\"')
+    result = result.replace(b"\r\n", b"").replace(b"\r", b"").replace(b"\n", b" ")
     return b'"' + result + b'"'
 
 
@@ -545,12 +562,12 @@ class FetchAtt:
         for value in values:
             if "," in value:
                 for lng in value.split(","):
-                    langs.add(f'"{lng.strip()}"')
+                    langs.add(quote_string(lng.strip()))
             elif ";" in value:
                 for lng in value.split(";"):
-                    langs.add(f'"{lng.strip()}"')
+                    langs.add(quote_string(lng.strip()))
             else:
-                langs.add(f'"{value.strip()}"')
+                langs.add(quote_string(value.strip()))
 
         if not langs:
             return b"NIL"
@@ -609,7 +626,7 @@ class FetchAtt:
 
         results = []
         for k, v in params.items():
-            results.append(f'"{k.upper()}" "{v}"')
+            results.append(f"{quote_string(k.upper())} {quote_string(str(v))}")
 
         try:
             res = (f"({' '.join(results)})").encode("latin-1")
@@ -657,7 +674,9 @@ class FetchAtt:
 
         result = []
         for param, value in params.items():
-            result.append(f'"{param.upper()}" "{value}"')
+            result.append(
+                f"{quote_string(param.upper())} {quote_string(str(value))}"
+            )
         res = f'("{cd.upper()}" ({" ".join(result)}))'
         try:
             return res.encode("latin-1")
@@ -796,7 +815,7 @@ class FetchAtt:
             if "Content-Transfer-Encoding" in msg
             else "7BIT"
         )
-        result.append((f'"{cte}"').encode("latin-1"))
+        result.append(quote_string(str(cte)).encode("latin-1", "replace"))
 
         # Body size
         payload = msg_as_bytes(msg, render_headers=False)
